@@ -2,6 +2,7 @@
 C10 — files are read as the exact problem their text denotes: the numeric-literal layer.
 -/
 import Qsx.Proofs.NumScan
+import Qsx.Proofs.LpLexSafe
 
 namespace Qsx.Props.C10
 open Qsx.Num
@@ -47,5 +48,25 @@ theorem scan_no_div_zero (cs : List Char) (q : Rat) (n : Nat) (h : scan cs = (n,
 #guard scanStr "7e000012x" == (8, Val.ok 7000000000000)
 #guard (scanStr "1e-99999").1 == 8
 #guard (Lit.render { sg := .minus, ip := [1, 2], fp := some [5, 0], ex := some (false, .minus, [1]) }) == "-12.50e-1".toList
+
+
+/-! ### token level: comments are immaterial to the row-name test of the LP reader (model `Qsx.LpLex`, read_lp.c) -/
+
+/-- `has_colon` (which decides whether a constraint or the objective starts with a row name) answers 1 exactly when a `:`
+occurs on the rest of the line before its end.  The line is what next_line left of the text: everything from the first
+`\\` on - the comment - is cut off (`LpLex.nextLine`), so a `:` inside a comment does not count, and what lies behind the
+string terminator is never looked at (before fix ef5c071 both were false). -/
+theorem has_colon_spec (s : LpLex.St) (h : LpLex.Inv s) :
+    ∃ s1 r1, LpLex.skipBlanks s false = some (s1, r1) ∧
+      LpLex.hasColon s = some (s1, if LpLex.colonAhead (s1.line.drop s1.p) then 1 else 0) :=
+  LpLex.hasColon_spec s h
+
+/-- a constraint with a `:` only in its comment has no row name; one with a label has -/
+example : (do let s ← LpLex.init ["x + y >= 1 \\ ratio: 3\n".toList]
+              let (_, r) ← LpLex.hasColon s
+              pure r) = some 0 := by decide +kernel
+example : (do let s ← LpLex.init [" c1 : x + y >= 1 \\ ratio\n".toList]
+              let (_, r) ← LpLex.hasColon s
+              pure r) = some 1 := by decide +kernel
 
 end Qsx.Props.C10
